@@ -88,6 +88,7 @@ fn k2_from_bool() {
 macro_rules! k2_float_nonfinite {
     ($name:ident, $t:ty, $bits:ty) => {
         #[kani::proof]
+        #[kani::unwind(2)]
         fn $name() {
             let bits: $bits = kani::any();
             let x = <$t>::from_bits(bits);
@@ -112,28 +113,3 @@ macro_rules! k2_float_nonfinite {
 
 k2_float_nonfinite!(k2_from_f32, f32, u32);
 k2_float_nonfinite!(k2_from_f64, f64, u64);
-
-// Finite f32 with an integral value of magnitude < 2^24 (exactly representable): the conversion
-// must denote that integer. Probe only; listed under "dropped" in run_kani.py if it does not finish.
-#[kani::proof]
-fn k2_from_f32_smallint() {
-    let k: i32 = kani::any();
-    kani::assume(k > -(1 << 24) && k < (1 << 24));
-    let x = k as f32;
-    let v = Value::from(x);
-    kani::cover!(k == 12345, "k2_input_12345");
-    match v {
-        Value::Number(d) => {
-            kani::cover!(true, "k2_reached_number");
-            // value == mantissa / 10^scale == k  <=>  mantissa == k * 10^scale
-            let mut pow: i128 = 1;
-            let mut i = 0;
-            while i < d.scale() {
-                pow *= 10;
-                i += 1;
-            }
-            assert!(d.mantissa() == (k as i128) * pow, "k2: Value::from(k as f32) denotes k");
-        }
-        _ => assert!(false, "k2: Value::from(f32) is a Value::Number"),
-    }
-}
